@@ -187,6 +187,8 @@ def generate():
 def main():
     out = os.path.join(os.path.dirname(os.path.abspath(__file__)), "..", "coq", "theories", "Gen", "Constants.v")
     out = os.path.normpath(out)
+    if os.environ.get("VERIF_CONSTANTS_OUT"):        # dry run into a scratch directory (tools/benign.py): the build is not touched
+        out = os.path.join(os.environ["VERIF_CONSTANTS_OUT"], "Constants.v")
     text = generate()
     old = open(out).read() if os.path.exists(out) else None
     if old != text:
